@@ -103,6 +103,16 @@ def build_items(case):
             else:
                 prog = biased_program(rng)
             items.append({"kind": "convert", "text": render(prog), "opts": OPTS[i % len(OPTS)]})
+    elif case["kind"] == "literals":
+        # constants that compare equal and are not the same constant (0 and -0, 1 and 1.0 and 1E0 and &H1, 255 and &HFF),
+        # one program each: what one conversion made of its constant is not what the next one gets for its own
+        texts = ["10 X=-0\n", "10 B=0\n", "10 IF A THEN 10\n", "10 X=-0.0:Y=0.0\n", "10 X=0.0:Y=-0.0\n", "10 X=-.0\n", "10 X=-1E-400\n", "10 X=1\n", "10 X=1.0\n",
+                 "10 X=1E0\n", "10 X=&H1\n", "10 X=01\n", "10 X=255:Y=&HFF\n", "10 X=&HFF:Y=255\n", "10 DATA -0,0,1,1.0,&H1\n20 READ A,B,C,D,E\n",
+                 "10 DATA 0,-0,,1\n20 READ A,B,C,D\n", "10 A$=\"1\":B$=\"1.0\":C$=\"-0\"\n", "10 X=.5:Y=0.5:Z=5E-1\n", "10 FOR I=-0 TO 0 STEP 1.0:NEXT\n",
+                 "10 X=32768:Y=&H8000:Z=-32768\n", "10 DIM A(1),B(1.0),C(&H1)\n", "10 ON 1.0 GOTO 10\n20 ON 1 GOTO 10\n"]
+        for i in range(case["n"]):
+            items.append({"kind": "convert", "text": texts[rng.randrange(len(texts))] if i >= len(texts) else texts[i],
+                          "opts": [{}, {"initialize_vars": True}, {"output_dependencies": True, "procname": "p"}][(i // len(texts)) % 3]})
     elif case["kind"] == "limits":
         # programs near what the tool can still digest, interleaved with programs it refuses: whether a program is
         # converted or refused may not depend on what was refused before it
@@ -255,6 +265,8 @@ def cases(tier, seed):
     hseeds = [0, 1, 2, 3, 5, 7, 11, 13] if tier == "quick" else list(range(32))
     for b in range(nb):
         yield {"kind": "convert", "seed": seed * 100003 + b, "n": 40, "hashseeds": hseeds, "sample": b == 0}
+    for b in range(1 if tier == "quick" else 6):
+        yield {"kind": "literals", "seed": seed * 100109 + b, "n": 44, "hashseeds": hseeds[:3], "sample": False}
     for b in range(1 if tier == "quick" else 6):
         yield {"kind": "limits", "seed": seed * 100081 + b, "n": 45, "hashseeds": hseeds[:2], "sample": False}
     for b in range(1 if tier == "quick" else 8):
